@@ -8,6 +8,7 @@ import (
 	"math/rand"
 	"os"
 	"path/filepath"
+	"strings"
 
 	"github.com/pdfcpu/pdfcpu/pkg/api"
 	"github.com/pdfcpu/pdfcpu/pkg/pdfcpu"
@@ -108,8 +109,8 @@ func project(data []byte) layoutRec {
 		fd := f.ObjectAt(e.A)
 		founds[i] = fd
 		r.FN[i], r.FG[i], r.FOK[i] = fd.N, fd.G, fd.Parsed
-		if fd.N != i || !fd.Parsed {
-			diag("object %d at %d: found %d %d, %s", i, e.A, fd.N, fd.G, fd.Err)
+		if fd.N != i || fd.G != e.B || !fd.Parsed {
+			diag("object %d generation %d at %d: found header %d %d obj, %s", i, e.B, e.A, fd.N, fd.G, fd.Err)
 		}
 		if si := fd.Stream; si != nil {
 			c := si.Counts
@@ -151,6 +152,53 @@ type layoutOp struct {
 	name string
 	run  func(in, out string, conf *model.Configuration, w *layoutWork) error
 	incr bool
+	// hist: a history of writes of ONE context; every output (out-1.pdf, out-2.pdf, ...) is judged
+	hist func(in, outBase string, conf *model.Configuration, w *layoutWork) ([]string, error)
+}
+
+// nextXSOS rotates the (xref stream, object stream) setting: 00 -> 10 -> 11 -> 00.
+func nextXSOS(xs, os bool, steps int) (bool, bool) {
+	for ; steps > 0; steps-- {
+		switch {
+		case !xs:
+			xs, os = true, false
+		case !os:
+			xs, os = true, true
+		default:
+			xs, os = false, false
+		}
+	}
+	return xs, os
+}
+
+// rewriteHistory reads in once and writes the same context twice: under conf, then (after ResetWriteContext) under the
+// writer setting `steps` positions further in the rotation xref table -> xref stream -> xref stream + object streams.
+func rewriteHistory(steps int) func(in, outBase string, conf *model.Configuration, w *layoutWork) ([]string, error) {
+	return func(in, outBase string, conf *model.Configuration, w *layoutWork) ([]string, error) {
+		f, err := os.Open(in)
+		if err != nil {
+			return nil, err
+		}
+		defer f.Close()
+		conf.Cmd = model.OPTIMIZE
+		ctx, err := api.ReadValidateAndOptimize(f, conf)
+		if err != nil {
+			return nil, err
+		}
+		var outs []string
+		o1 := outBase + "-1.pdf"
+		if err := api.WriteContextFile(ctx, o1); err != nil {
+			return outs, err
+		}
+		outs = append(outs, o1)
+		ctx.ResetWriteContext()
+		ctx.WriteXRefStream, ctx.WriteObjectStream = nextXSOS(conf.WriteXRefStream, conf.WriteObjectStream, steps)
+		o2 := outBase + "-2.pdf"
+		if err := api.WriteContextFile(ctx, o2); err != nil {
+			return outs, err
+		}
+		return append(outs, o2), nil
+	}
 }
 
 type layoutWork struct {
@@ -207,6 +255,8 @@ func layoutOps() []layoutOp {
 		{name: "insert", run: func(i, o string, c *model.Configuration, w *layoutWork) error {
 			return api.InsertPagesFile(i, o, []string{"1"}, true, nil, c)
 		}},
+		{name: "rewrite1", hist: rewriteHistory(1)},
+		{name: "rewrite2", hist: rewriteHistory(2)},
 		{name: "properties", run: func(i, o string, c *model.Configuration, w *layoutWork) error {
 			return api.AddPropertiesFile(i, o, map[string]string{"k1": "v(1)"}, c)
 		}},
@@ -243,41 +293,60 @@ func layoutCmd() {
 
 	// the full product is the space; quick samples it (seeded), thorough takes all of it up to the limit
 	type job struct {
-		in  Input
-		cfg WCfg
-		op  layoutOp
+		in    Input
+		cfg   WCfg
+		op    layoutOp
+		noopt bool // conf.Optimize, OptimizeBeforeWriting, OptimizeResourceDicts switched off
 	}
 	var jobs []job
 	for _, in := range inputs {
 		for _, cfg := range cfgs {
 			for _, op := range ops {
-				jobs = append(jobs, job{in, cfg, op})
+				for _, noopt := range []bool{false, true} {
+					if in.NoOptimize && !noopt {
+						continue
+					}
+					jobs = append(jobs, job{in, cfg, op, noopt})
+				}
 			}
 		}
 	}
 	space := len(jobs)
 	if limit > 0 && len(jobs) > limit {
-		// keep a covering core: every (cfg, op) pair on at least one generated and one corpus input, then random fill
+		// covering core: every (generated input, operation) pair, the configurations rotated so that every generated input
+		// meets every xref/object stream setting, both optimisation settings and most eol/encryption settings;
+		// then a seeded random fill from the whole space (corpus inputs included)
+		var core []job
+		used := map[string]bool{}
+		gi := 0
+		for _, in := range inputs {
+			if !in.Gen {
+				continue
+			}
+			for k, op := range ops {
+				cfg := cfgs[(gi*7+k*5+int(seed))%len(cfgs)]
+				noopt := in.NoOptimize || (gi+k+int(seed))%2 == 0
+				core = append(core, job{in, cfg, op, noopt})
+				used[fmt.Sprintf("%s|%v|%s|%v", in.Name, cfg, op.name, noopt)] = true
+			}
+			gi++
+		}
 		rng.Shuffle(len(jobs), func(i, j int) { jobs[i], jobs[j] = jobs[j], jobs[i] })
-		seen := map[string]bool{}
-		var core, rest []job
 		for _, j := range jobs {
-			k := fmt.Sprintf("%v|%s|%v", j.cfg, j.op.name, j.in.Gen)
-			if !seen[k] {
-				seen[k] = true
+			if len(core) >= limit {
+				break
+			}
+			if !used[fmt.Sprintf("%s|%v|%s|%v", j.in.Name, j.cfg, j.op.name, j.noopt)] {
 				core = append(core, j)
-			} else {
-				rest = append(rest, j)
 			}
 		}
-		jobs = append(core, rest...)
-		if len(jobs) > limit {
-			jobs = jobs[:limit]
-		}
+		jobs = core
 	}
 
 	out := h.NewW(outPath)
 	defer out.Close()
+	failed := h.NewW(outPath + ".failed") // history steps whose write failed after an earlier write of the same context succeeded
+	defer failed.Close()
 	stats := map[string]int{}
 	encCache := map[string]string{} // input|cfg -> encrypted file ("" if encryption failed)
 	emit := func(id, op string, in Input, cfg WCfg, path string) {
@@ -332,19 +401,37 @@ func layoutCmd() {
 		}
 		o := filepath.Join(work, fmt.Sprintf("out-%d.pdf", k))
 		conf := j.cfg.Conf()
-		if j.in.NoOptimize {
-			conf.Optimize = false
+		tag := j.cfg.String()
+		if j.noopt {
+			conf.Optimize, conf.OptimizeBeforeWriting, conf.OptimizeResourceDicts = false, false, false
+			tag += "-noopt"
+			stats["noopt_jobs"]++
+		}
+		if j.op.hist != nil {
+			outs, err := j.op.hist(src, strings.TrimSuffix(o, ".pdf"), conf, w)
+			for n, f := range outs {
+				emit(fmt.Sprintf("%s#%d|%s|%s", j.op.name, n+1, j.in.Name, tag), j.op.name, j.in, j.cfg, f)
+				os.Remove(f)
+				stats["history_outputs"]++
+			}
+			if err != nil {
+				// a write that fails leaves no file to judge; the failure itself is reported as an unwritable history step
+				stats["op_failed"]++
+				stats["history_write_failed"]++
+				failed.Put(map[string]any{"id": fmt.Sprintf("%s#%d|%s|%s", j.op.name, len(outs)+1, j.in.Name, tag), "err": err.Error()})
+			}
+			continue
 		}
 		err := j.op.run(src, o, conf, w)
 		if err != nil {
 			stats["op_failed"]++
 			if os.Getenv("VERIF_DEBUG") != "" {
-				fmt.Fprintf(os.Stderr, "op failed: %s %s %s: %v\n", j.op.name, j.in.Name, j.cfg, err)
+				fmt.Fprintf(os.Stderr, "op failed: %s %s %s: %v\n", j.op.name, j.in.Name, tag, err)
 			}
 			os.Remove(o)
 			continue
 		}
-		emit(j.op.name+"|"+j.in.Name+"|"+j.cfg.String(), j.op.name, j.in, j.cfg, o)
+		emit(j.op.name+"|"+j.in.Name+"|"+tag, j.op.name, j.in, j.cfg, o)
 		os.Remove(o)
 	}
 	sm := map[string]any{"space": space, "jobs": len(jobs), "inputs": len(inputs), "cfgs": len(cfgs), "ops": len(ops)}
